@@ -1,6 +1,6 @@
 (* Property C09 (model part: the abandonment / adoption state machine) -- statements only, each closed
    by `exact <lemma>`, and Print Assumptions.  Model: Model/Abandon.v (interleaving semantics, one
-   transition per atomic access).  The coordinator owns Properties/C09.v. *)
+   transition per atomic access).  This is the property file of C09 (there is no Properties/C09.v). *)
 From Coq Require Import NArith ZArith List Bool.
 From MiV Require Import Gen.Consts Model.Abandon Proofs.AbandonProofs Proofs.AbandonTrace Proofs.AbandonCount Proofs.AbandonOpen.
 Import ListNotations.
